@@ -118,7 +118,7 @@ def afterPE (c : Cfg) (s : St) : St :=
 
 def filterPass (c : Cfg) (p : RPhase) (s : St) : St :=
   let (f, invs) := runRecv c.recv p s.toFState
-  emit (liftF s f) (.rpass p s.cursor invs)
+  emit (liftF s f) (.rpass p (startOf s.toFState p) invs)
 
 def sendPass (c : Cfg) (s : St) : St :=
   let (f, invs) := runSend c.send s.toFState
@@ -223,18 +223,19 @@ def trace (c : Cfg) : List Ev := (final c).trace
 
 /-! ### vocabulary of the theorems about passes -/
 
-/-- scanning the trace from a cursor value: every receiver pass starts exactly at the cursor the previous pass left
-(`cursorAfter`: the index of its last filter if that one asked for re-match / re-choose, else 0) -/
-def resumeOK : Nat → List Ev → Prop
-  | _, [] => True
-  | cur, .rpass _ st invs :: r => st = cur ∧ resumeOK (cursorAfter invs) r
-  | cur, _ :: r => resumeOK cur r
+/-- scanning the trace from a cursor value and the phase it was kept in: a receiver pass of the SAME phase starts
+exactly at the cursor the previous pass left (`cursorAfter`: the index of its last filter if that one asked for
+re-match / re-choose, else 0); a pass of another phase starts at 0 -/
+def resumeOK : Nat → RPhase → List Ev → Prop
+  | _, _, [] => True
+  | cur, cph, .rpass p st invs :: r => st = (if cur ≠ 0 ∧ p ≠ cph then 0 else cur) ∧ resumeOK (cursorAfter invs) p r
+  | cur, cph, _ :: r => resumeOK cur cph r
 
-/-- the cursor after scanning a trace -/
-def cursorTrace : Nat → List Ev → Nat
-  | cur, [] => cur
-  | _, .rpass _ _ invs :: r => cursorTrace (cursorAfter invs) r
-  | cur, _ :: r => cursorTrace cur r
+/-- the cursor (and the phase of the last pass) after scanning a trace -/
+def cursorTrace : Nat → RPhase → List Ev → Nat × RPhase
+  | cur, cph, [] => (cur, cph)
+  | _, _, .rpass p _ invs :: r => cursorTrace (cursorAfter invs) p r
+  | cur, cph, _ :: r => cursorTrace cur cph r
 
 /-! ### vocabulary of the theorems about the reply -/
 
